@@ -158,6 +158,17 @@ CLAIMED = {
             "C01/C03/C08/C09 must give the TLC verdicts under ascending, descending and rotated iteration of every map the library ranges over.",
             "Re-validating a partly consumed Document and reading on after a lexeme error are unspecified; histories longer than 4 only through the "
             "structure of the model (no history argument in any result).", "3/C11"),
+    "C12": ("TLA+ model Conc (goroutines as processes; atomic sections: sync.Once enter/run, buffer pool get/write/copy/put, the three steps of "
+            "CompileAllOf on a type shared by two roots) model-checked by TLC; every complete schedule of the pinned tree's model replayed in the "
+            "real code through scheduling points committed under the build tag verif; goroutine mixes under the race detector against the "
+            "sequential results",
+            "TLC proves, for 2 (quick) / 3 (thorough) goroutines, that with atomic type extension and copy-before-put every call returns its "
+            "sequential result, the compile body runs once and no buffer is shared; each of the model's 50 two-compile schedules is replayed "
+            "deterministically with gates and must give the sequential results unless the model predicts the recorded spurious error; 2..32 "
+            "goroutines issue random operation mixes on a shared schema, on private schemas and on schemas sharing type objects under -race, and "
+            "every result is compared with the sequential run.",
+            "Data-race freedom is observed with the Go race detector on harness-produced schedules, not proved; one recorded finding (shared "
+            "allOf type) is attributed only where the model predicts it / in the one scenario that shares an allOf type.", "3/C12"),
 }
 
 PENDING_REASON = "check under construction in this session - not claimed yet (no technique switch intended; see DESIGN.md section 3)"
@@ -180,7 +191,7 @@ def main():
             "level_note": note,
             "technique": tech,
         })
-    hooks_commits = []
+    hooks_commits = ["8b8ee29"]
     m = {
         "version": 1,
         "setup_cmd": "python3 setup.py",
